@@ -1681,3 +1681,29 @@ def rule_samplermisc(text):
             apps.append(_app(rname, text, mm.start(), mm.end(), new, why))
             text = text[:mm.start()] + new + text[mm.end():]
     return text, apps
+
+
+def rule_loadmisc(text):
+    apps = []
+    ws = r"\s*"
+    table = [
+        (r"let" + ws + r"mut" + ws + r"metadata" + ws + r"=" + ws + r"self\._metadata\.write\(\);" + ws + r"disk_io\.read\(\)\.initialize_store_metadata\(&mut" + ws + r"metadata\)\?;",
+         "self._metadata.with_write_initialize(disk_io.read())?;", "R-lock", "shim: initialize_store_metadata under the metadata write lock"),
+        (r"\*self\._metadata\.write\(\)" + ws + r"=" + ws + r"metadata;", "self._metadata.set(metadata);", "R-lock", "shim: storing the decoded metadata under its write lock"),
+        (r"&(\w+)\[\.\.(\w+)\]" + ws + r"!=" + ws + r"(\w+)", r"prefix_ne(&\1, \2, \3)", "R-seq", "shim: comparison of a prefix with the signature bytes"),
+        (r"metadata\.version\b(?!\()", "metadata.version()", "R-opq", "field read of the opaque metadata block"),
+        (r"Some\(ref" + ws + r"(\w+)\)" + ws + r"=" + ws + r"(self\.\w+)" + ws + r"\{", r"Some(\1) = \2.as_ref() {", "R-refpat", "`Some(ref x) = e` binds a reference into e"),
+    ]
+    for pat, rep, rname, why in table:
+        n = 0
+        while n < 8:
+            n += 1
+            mm = re.search(pat, text)
+            if not mm:
+                break
+            new = mm.expand(rep)
+            if new == text[mm.start():mm.end()]:
+                break
+            apps.append(_app(rname, text, mm.start(), mm.end(), new, why))
+            text = text[:mm.start()] + new + text[mm.end():]
+    return text, apps
